@@ -24,11 +24,28 @@ class Probe:
         self.raised = None
         self.enabled = True
 
+    def _nth(self, when):
+        """armed by event index: {"nth": n, "when": "pre"|"post", "exc": class, "count": 0}"""
+        a = self.armed
+        if a and "nth" in a and a["when"] == when and not a.get("fired"):
+            if a.get("count", 0) == a["nth"]:
+                a["fired"] = True
+                return True
+            a["count"] = a.get("count", 0) + 1
+        return False
+
     def pre(self, space, name, key):
         el = (space._evalrepr, name, tuple(key))
         self.log.append(("E",) + el)
         self.stack.append(el)
         a = self.armed
+        if a and "nth" in a:
+            if self._nth("pre"):
+                self.raised = a["exc"]("injected at pre %s" % (el,))
+                self.chain_at_raise = list(self.stack)
+                self.stack.pop()
+                raise self.raised
+            return None
         if a and not a.get("fired") and a["at"] == ("pre",) + el and a["exc"] != "none":
             a["fired"] = True
             self.raised = a["exc"]("injected at pre %s" % (el,))
@@ -40,6 +57,13 @@ class Probe:
     def post(self, space, name, key, value):
         el = (space._evalrepr, name, tuple(key))
         a = self.armed
+        if a and "nth" in a:
+            if self._nth("post"):
+                self.raised = a["exc"]("injected at post %s" % (el,))
+                self.chain_at_raise = list(self.stack)
+                self._pop(el)
+                raise self.raised
+            a = None
         if a and not a.get("fired") and a["at"][1:] == el:
             if a["exc"] == "none":
                 a["fired"] = True
